@@ -557,7 +557,7 @@ def run_one(choices, params):
 
 
 def prepare(tier, seed):
-    return 3000 if tier == "quick" else 200000
+    return 8000 if tier == "quick" else 200000
 
 
 def params_for(i, tier, seed):
